@@ -411,10 +411,21 @@ def run(ctx):
         pl = lattice.strip(rng, 0.0, 0.0, 4, 2.0, 3.0)
         la = lattice.lanelet(1, pl)
         _ = la.polygon, la.distance, la.inner_distance
+        L0 = float(la.distance[-1])
+        fracs = [0.0, 0.37 * L0, L0 * (1 - 1e-9)]   # the SAME arc lengths before and after every motion
+        for s_ in fracs:
+            la.interpolate_position(s_)
         for k in range(n):
             la.translate_rotate(np.array([rng.uniform(-9, 9), rng.uniform(-9, 9)]), rng.choice([0.7, -2.0, 0.02]))
             ctx.evaluation()
             fr = Lanelet(la.left_vertices.copy(), la.center_vertices.copy(), la.right_vertices.copy(), 1)
+            # the same arc lengths as before the motion (the length does not change under a rigid motion), last one first
+            for s_ in fracs[::-1]:
+                a_, b_ = la.interpolate_position(s_), fr.interpolate_position(s_)
+                if any(np.abs(np.asarray(x_) - np.asarray(y_)).max() > 1e-7 for x_, y_ in zip(a_[:3], b_[:3])) or a_[3] != b_[3]:
+                    ctx.violation("C11/lanelet/stale-interpolate_position/after-translate_rotate",
+                                  "s=%r: %s on the moved lanelet, %s on a fresh one" % (s_, a_[0], b_[0]), {"kind": "lanelet"})
+                    return
             if not geom.rings_equal(geom.open_ring(la.polygon.vertices), geom.open_ring(fr.polygon.vertices), 1e-9):
                 ctx.violation("C11/lanelet/stale-polygon/after-translate_rotate", "step %d" % k, {"kind": "lanelet"})
                 return
